@@ -27,7 +27,7 @@ static void run_cfg(Out& out, const std::vector<std::vector<long long>>& keys, l
     std::vector<It> begin0; for (auto& s : seqs) begin0.push_back(s.first);
     std::vector<T> target(L + 2);
     for (auto& t : target) { t.key = -777; t.src = -1; t.pos = -1; }
-    Cmp cmp;
+    Cmp cmp(1);        // armed: see VF_Stateful
     auto m = static_cast<tlx::MultiwayMergeAlgorithm>(mwma);
     typename std::vector<T>::iterator ret;
     if (front >= 2) {
@@ -79,15 +79,15 @@ int main(int argc, char** argv) {
         for (int stable = 0; stable < 2; ++stable) for (int sent = 0; sent < 2; ++sent) for (int mwma = 0; mwma < 4; ++mwma) {
             int v = (int)((n + stable * 5 + sent * 3 + mwma) % 4);
             int front = (int)((n + mwma) % 2);
-            if (v == 0) run_cfg<Small, LessKey>(out, keys, L, stable, sent, mwma, false, "small", front);
-            else if (v == 1) run_cfg<Large, LessKey>(out, keys, L, stable, sent, mwma, false, "large", front);
-            else if (v == 2) run_cfg<Small, GreaterMirror>(out, keys, L, stable, sent, mwma, true, "small", front);
-            else run_cfg<Large, GreaterMirror>(out, keys, L, stable, sent, mwma, true, "large", front);
+            if (v == 0) run_cfg<Small, VF_Stateful<LessKey>>(out, keys, L, stable, sent, mwma, false, "small", front);
+            else if (v == 1) run_cfg<Large, VF_Stateful<LessKey>>(out, keys, L, stable, sent, mwma, false, "large", front);
+            else if (v == 2) run_cfg<Small, VF_Stateful<GreaterMirror>>(out, keys, L, stable, sent, mwma, true, "small", front);
+            else run_cfg<Large, VF_Stateful<GreaterMirror>>(out, keys, L, stable, sent, mwma, true, "large", front);
         }
         if (k == 2) for (int front = 2; front <= 4; ++front) {          // a two-way merge that takes equal elements from the first input first is the stable merge
             // (merge_advance_usual is not what the stable entry points use: it is only required to produce a legal merge run)
-            if ((n + front) % 2) run_cfg<Small, LessKey>(out, keys, L, front != 2, false, 0, false, "small", front);
-            else run_cfg<Large, GreaterMirror>(out, keys, L, front != 2, false, 0, true, "large", front);
+            if ((n + front) % 2) run_cfg<Small, VF_Stateful<LessKey>>(out, keys, L, front != 2, false, 0, false, "small", front);
+            else run_cfg<Large, VF_Stateful<GreaterMirror>>(out, keys, L, front != 2, false, 0, true, "large", front);
         }
     }
     out.flush();
